@@ -22,7 +22,8 @@ Inductive cell :=
 | CNan
 | CInts (l : list Z)
 | CRats (l : list (Z * Z))
-| CBool (b : bool).
+| CBool (b : bool)
+| CTexts (l : list (list Z)).     (* one text per sample: a row of the genotype string matrix *)
 Inductive colres := ColErr | Col (c : list cell).
 Inductive obs := ObsErr | Obs (n : Z) (cols : list colres) (eager_ok : bool).
 
@@ -31,7 +32,7 @@ Definition decls := list (list Z * itype * bool).        (* INFO key, declared t
 
 Inductive ctype := TStr | TSid | TInt | TIntM1 | TOptInt | TFloat | TStrand | TQual | TIntList | TRest.
 Inductive format := Fbed3 | Fbed6 | Fbed12 | Fbdg | Fnpk | Fsizes | Fgtf | Fgff | Fwig | Fpairs | Fsam | Fgfa
-                  | Fvcf | Fvcfgt | Fvcfph | Fvcfhap | Ffastq | Ffasta2 | Ffasta.
+                  | Fvcf | Fvcfgt | Fvcfph | Fvcfhap | Fvcf2 | Ffastq | Ffasta2 | Ffasta.
 
 Definition bed3_cols := [(0, TSid); (1, TInt); (2, TInt)].
 Definition bed6_cols := bed3_cols ++ [(3, TSid); (4, TOptInt); (5, TStrand)].
@@ -51,7 +52,7 @@ Definition schema (f : format) : list (Z * ctype) :=
   | Fsam => [(0, TSid); (1, TInt); (2, TSid); (3, TInt); (4, TInt); (5, TStr); (6, TStr); (7, TInt); (8, TInt);
              (9, TStr); (10, TStr); (11, TRest)]
   | Fgfa => [(1, TSid); (2, TStr)]
-  | Fvcf | Fvcfgt | Fvcfph | Fvcfhap => vcf_cols
+  | Fvcf | Fvcfgt | Fvcfph | Fvcfhap | Fvcf2 => vcf_cols
   (* names of FASTQ / FASTA entries become a string array through string_array(ragged text), which (since /repo
      b1580f3, 3ac7cac) accepts a column of only-empty names; the fixed-width matrix of get_padded_field (TSid) does not *)
   | Ffastq => [(0, TStr); (1, TStr); (3, TQual)]
@@ -183,13 +184,20 @@ Definition has_geno (f : format) : bool := match f with Fvcfgt | Fvcfph | Fvcfha
 Definition spec_geno_col (f : format) (recs : list (list (list Z))) : colres :=
   Col (map (fun r => CInts (concat (map (fun smp => geno_codes f (firstn 3 smp)) (skipn 9 r)))) recs).
 
+(* VCFBuffer2: the genotype column is, per record, the GT sub-field (the text before the first ':') of every sample cell *)
+Definition gt_subfield (cell : list Z) : list Z := fst (split_first 58 cell).
+Definition spec_geno2_col (recs : list (list (list Z))) : colres :=
+  Col (map (fun r => CTexts (map gt_subfield (skipn 9 r))) recs).
+Definition has_geno2 (f : format) : bool := match f with Fvcf2 => true | _ => false end.
+
 Definition spec_cols (f : format) (d : option decls) (recs : list (list (list Z))) : list colres :=
   map (spec_col recs) (schema f)
   ++ (match f with
-      | Fvcf | Fvcfgt | Fvcfph | Fvcfhap =>
+      | Fvcf | Fvcfgt | Fvcfph | Fvcfhap | Fvcf2 =>
           match d with None => [spec_col recs (7, TStr)] | Some ds => map (spec_info_col recs) ds end
       | _ => [] end)
-  ++ (if has_geno f then [spec_geno_col f recs] else []).
+  ++ (if has_geno f then [spec_geno_col f recs] else [])
+  ++ (if has_geno2 f then [spec_geno2_col recs] else []).
 
 (* ---- layout: how the records are written in the file ---- *)
 Definition eol_of (crlf : bool) : list Z := if crlf then [13; 10] else [10].
@@ -267,6 +275,7 @@ Definition m_extra_start (e10 : Z) : Z := e10 + 1.            (* SAM: field_star
 Definition m_extra_len (ee st : Z) : Z := Z.max (ee - st - 1) 0.
 Definition m_line_len (k : Z) : Z := k + 1.                   (* has_field_mask: len(name) + 1 *)
 Definition m_ignored (s k size : Z) : bool := s + m_line_len k >=? size.
+Definition m_flag_len_match (l k : Z) : bool := l =? k.        (* has_field_name: only items exactly as long as the key are compared *)
 Definition m_value_start (s k : Z) : Z := s + m_line_len k.
 Definition m_value_len (l k : Z) (keep : bool) : Z := l - m_line_len k + (if keep then 1 else 0).
 
@@ -534,7 +543,7 @@ Definition info_texts (keep_sep : bool) (flat key : list Z) (tab : list (list (Z
          | [] => []
          end) tab).
 Definition has_flag (flat key : list Z) (tab : list (list (Z * Z))) : list bool :=
-  map (existsb (fun it => (snd it =? len key) && zlist_eqb (slice (fst it) (fst it + len key) flat) key)) tab.
+  map (existsb (fun it => m_flag_len_match (snd it) (len key) && zlist_eqb (slice (fst it) (fst it + len key) flat) key)) tab.
 Definition opt_bind {A B} (o : option A) (f : A -> option B) : option B := match o with Some x => f x | None => None end.
 Definition info_col (flat : list Z) (tab : list (list (Z * Z))) (d : list Z * itype * bool) : colres :=
   let '(key, ty, lst) := d in
@@ -555,6 +564,28 @@ Definition info_col (flat : list Z) (tab : list (list (Z * Z))) (d : list Z * it
 (* ---------- genotype matrix: three bytes from the start of every sample column ---------- *)
 Definition geno_col (f : format) (t : table) : colres :=
   Col (map (fun srow => CInts (concat (map (fun s => geno_codes f (slice s (s + 3) (t_data t))) (skipn 9 srow)))) (t_starts t)).
+
+(* ---------- genotype string matrix: VCFBuffer._extract_genotypes = get_padded_field(slice(9, None), stop_at=':')
+   (file_buffers.move_intervals_to_right_padded_array).  Every sample cell of the FILE is read through a window as wide
+   as the widest cell of the file (clamped at the end of the buffer); np.argmax finds the first ':' in the window (0 when
+   there is none — or when the window starts with it); the cell is cut there only if that ':' lies inside the cell
+   (np.minimum(lens, new_lens)); the rest of the row of the matrix is NUL and the |S view drops trailing NULs. ---------- *)
+Fixpoint argmax_eq (c : Z) (i : Z) (l : list Z) : Z :=
+  match l with [] => 0 | x :: r => if x =? c then i else argmax_eq c (i + 1) r end.
+Fixpoint drop_nul_front (l : list Z) : list Z := match l with 0 :: r => drop_nul_front r | _ => l end.
+Definition strip_nul (l : list Z) : list Z := rev (drop_nul_front (rev l)).
+Definition m_stop_len (l p : Z) : Z := if p >? 0 then Z.min l p else l.        (* np.where(new_lens > 0, np.minimum(lens, new_lens), lens) *)
+Definition padded_cell (data : list Z) (mx : Z) (se : Z * Z) : list Z :=
+  let s := fst se in
+  let window := map (fun j => nthZ data (Z.min (s + j) (len data - 1))) (arange mx) in
+  let l' := m_stop_len (snd se - s) (argmax_eq 58 0 window) in
+  strip_nul (firstn (Z.to_nat l') window).
+Definition sample_bounds (t : table) : list (list (Z * Z)) :=
+  map (fun se => combine (skipn 9 (fst se)) (skipn 9 (snd se))) (combine (t_starts t) (t_ends t)).
+Definition geno2_col (t : table) : colres :=
+  let bs := sample_bounds t in
+  let mx := max_len (concat bs) in
+  Col (map (fun row => CTexts (map (padded_cell (t_data t) mx) row)) bs).
 
 (* ---------- wrapped FASTA: MultiLineFastaBuffer.from_raw_buffer + get_data ---------- *)
 Fixpoint group_by (counts : list Z) (ls : list (list Z)) : list (list Z) :=
@@ -586,13 +617,14 @@ Definition fasta_cols (file : list Z) : option (Z * list colres) :=
 Definition run_cols (f : format) (d : option decls) (t : table) : list colres :=
   map (fun jt => typed_col t (fst jt) (snd jt)) (schema f)
   ++ (match f with
-      | Fvcf | Fvcfgt | Fvcfph | Fvcfhap =>
+      | Fvcf | Fvcfgt | Fvcfph | Fvcfhap | Fvcf2 =>
           match d with
           | None => [typed_col t 7 TStr]
           | Some ds => let rows := texts_sep t 7 in map (info_col (concat rows) (item_table 0 rows)) ds
           end
       | _ => [] end)
-  ++ (if has_geno f then [geno_col f t] else []).
+  ++ (if has_geno f then [geno_col f t] else [])
+  ++ (if has_geno2 f then [geno2_col t] else []).
 
 Definition table_of (f : format) (body : list Z) : option table :=
   match f with
